@@ -8,13 +8,15 @@
 #define NULL 0
 #define CID_GRIDVAL (CID_USER + 1)
 #define CID_HILLSUM (CID_USER + 2)
-extern "C" { extern int g_node[12]; extern long long e_l[8]; extern int g_nhill, g_hill_w; extern long long g_hill_step; extern int g_hill_c, g_hill_s; extern int g_nsum; }
+extern "C" { extern int g_node[12]; extern long long e_l[8]; extern int g_nhill, g_hill_w; extern long long g_hill_step; extern int g_hill_c, g_hill_s; extern int g_nsum; extern int g_inrange, g_sum_range; }
 struct grid_stub {
   std::vector<int> get_colvars_index() const { std::vector<int> ix; int *p = (int *) __CPROVER_allocate(4 * sizeof(int), 0); ix.p_ = p; ix.n_ = 1; ix.cap_ = 4; p[0] = 2; return ix; }
-  cvm::real value(std::vector<int> const &ix) const { return sreal_call(CID_GRIDVAL, ix[0]); } };
+  bool index_ok(std::vector<int> const &ix) const { return g_inrange != 0; }
+  cvm::real value(std::vector<int> const &ix) const { CVS_ASSERT(g_inrange != 0, "colvar_grid::value: index inside the grid (else out-of-bounds read)"); return sreal_call(CID_GRIDVAL, ix[0]); } };
 struct hill_s { long long it; int w; int c, s; hill_s() {}
   hill_s(cvm::step_number it_, cvm::real W, std::vector<colvarvalue> const &cv_values, std::vector<cvm::real> const &cv_sigmas) { it = it_; w = W.nid(); c = (cv_values.p_ == (colvarvalue *) 0) ? 0 : 1 + (int) cv_values.n_; s = 1 + (int) cv_sigmas.n_; } };
 #define hill hill_s
+typedef std::list<hill_s> hlist_t;
 struct K_nh {
   enum Communication { single_replica, multiple_replicas };
   typedef std::list<hill_s>::iterator hill_iter;
@@ -32,7 +34,9 @@ struct K_nh {
   std::vector<colvarvalue> colvar_values;      //@real colvarbias.h
   std::vector<cvm::real> colvar_sigmas;        //@real colvarbias_meta.h
   colvarproxy *proxy;
-  void calc_hills(hill_iter, hill_iter, cvm::real &energy, std::vector<colvarvalue> const *) { g_nsum = g_nsum + 1; energy += sreal_call(CID_HILLSUM, 0); }
+  hlist_t hills_off_grid;                       // real: std::list<hill> hills_off_grid;
+  // which range is summed: 1 = the not-yet-tabulated hills [new_hills_begin, end), 2 = the hills near the grid boundaries
+  void calc_hills(hill_iter first, hill_iter, cvm::real &energy, std::vector<colvarvalue> const *) { g_nsum = g_nsum + 1; g_sum_range = (first == hills_off_grid.begin()) ? 2 : 1; energy += sreal_call(CID_HILLSUM, g_sum_range); }
   void add_hill(hill_s const &h) { g_nhill = g_nhill + 1; g_hill_w = h.w; g_hill_step = h.it; g_hill_c = h.c; g_hill_s = h.s; }
   void body()
 #include "new_hill.body.inc"
@@ -42,8 +46,8 @@ struct K_nh {
 extern "C" void k_new_hill(bool well_tempered, bool use_grids) {
   g_tn = 0; K_nh f; grid_stub g; f.hills_energy = &g; f.target_dist = &g; f.proxy = &cvs_proxy; f.comm = K_nh::single_replica;
   f.well_tempered = well_tempered; f.use_grids = use_grids; f.ebmeta = false; f.ebmeta_equil_steps = 0;
-  colvarvalue cv[2]; cvm::real sg[3]; CVS_VIEW(f.colvar_values, cv, 2); CVS_VIEW(f.colvar_sigmas, sg, 3); hill_s harr[1]; f.hills.p_ = harr; f.hills.n_ = 0; f.new_hills_begin = harr;
+  colvarvalue cv[2]; cvm::real sg[3]; CVS_VIEW(f.colvar_values, cv, 2); CVS_VIEW(f.colvar_sigmas, sg, 3); hill_s harr[1], oarr[1]; f.hills.p_ = harr; f.hills.n_ = 0; f.new_hills_begin = harr; f.hills_off_grid.p_ = oarr; f.hills_off_grid.n_ = 0;
   { double x = nondet_double(); f.hill_weight = cvm::real(x); g_node[0] = f.hill_weight.id; } { double x = nondet_double(); f.bias_temperature = cvm::real(x); g_node[1] = f.bias_temperature.id; }
-  e_l[0] = well_tempered; e_l[1] = use_grids; e_l[2] = g_step_abs;
+  e_l[0] = well_tempered; e_l[1] = use_grids; e_l[2] = g_step_abs; e_l[3] = g_inrange;
   f.body();
 }
